@@ -850,7 +850,7 @@ func specStringSequence(r *Rng, em *Emitter, fork string) {
 	if class == "panic" {
 		verdict = "panic"
 	}
-	em.Op("C09,C03", "S solstring-sequence", verdict)
+	em.Op("C09,C03,C10", "S solstring-sequence", verdict)
 }
 
 func driveJournal(seed uint64, n int, size int, em *Emitter, exhaustive bool) {
@@ -986,6 +986,25 @@ func driveJournal(seed uint64, n int, size int, em *Emitter, exhaustive bool) {
 			off = uint256.NewInt(o)
 			sz = new(uint256.Int).Sub(new(uint256.Int).Lsh(uint256.NewInt(1), 64), uint256.NewInt(o+uint64(r.Intn(3))))
 			sz.Add(sz, uint256.NewInt(uint64(r.Intn(3))))
+		}
+		if r.Chance(8) {
+			// an operand whose LOW 64 bits are a valid offset / width while the whole word is not (2^64·m + small)
+			hi := new(uint256.Int).Lsh(uint256.NewInt(1), uint([]int{64, 64, 65, 128, 200, 255}[r.Intn(6)]))
+			if r.Chance(40) {
+				hi = new(uint256.Int).Lsh(new(uint256.Int).SetBytes(r.Bytes(1+r.Intn(23))), 64)
+			}
+			lowOp := new(uint256.Int).Add(hi, uint256.NewInt(uint64(r.Intn(34))))
+			switch r.Intn(3) {
+			case 0:
+				off, sz = uint256.NewInt(uint64(r.Intn(32))), lowOp
+				if r.Chance(50) {
+					sz = new(uint256.Int).Add(hi, uint256.NewInt(uint64(r.Intn(int(33-off.Uint64())))))
+				}
+			case 1:
+				off, sz = lowOp, uint256.NewInt(uint64(r.Intn(33)))
+			default:
+				off, sz = lowOp, new(uint256.Int).Add(hi, uint256.NewInt(uint64(r.Intn(4))))
+			}
 		}
 		specValueCase(r, em, wordFrom(r), off, sz, forks[r.Intn(len(forks))])
 	}
